@@ -128,7 +128,10 @@ TraceExpand ==
          isC == IsContentSrcDst(e.path)
          isList == e.kind = "list"
          rawSeq == IF isList THEN <<e.raw, "keep-me">> ELSE <<e.raw>>
-         asWritten == IF isList THEN TrimList(rawSeq) ELSE rawSeq
+         \* (the lists that take part in expansion are trimmed item by item and lose their empty items also when nothing
+         \* is expanded; every other list is left exactly as written)
+         processed == DocumentedExpandable(e.path) \/ (StripOverride(e.path) = e.path /\ e.path \in AsIsAlsoExpanded)
+         asWritten == IF isList /\ processed THEN TrimList(rawSeq) ELSE rawSeq
          expanded == IF isList THEN ExpandList(rawSeq, e.env)
                      ELSE IF isC THEN <<TrimSpace(ExpandStr(e.raw, e.env))>> ELSE Defaulted(e.path, <<ExpandStr(e.raw, e.env)>>)
          documented == DocumentedExpandable(e.path)
